@@ -127,7 +127,7 @@ def deadFiberHeap : Heap := Heap.ofList
   [ Obj.fiber .imm [] [⟨none, none, [.ref 1]⟩] none none none [] none,     -- 0 root fiber, slot holds the closure
     Obj.function (some 2) [3],                                              -- 1 closure
     Obj.funcdef [] [] none none [],                                         -- 2 its funcdef
-    Obj.funcenv (some 4) true [.ref 5],                                     -- 3 env on the stack of finished fiber 4
+    Obj.funcenv (some 4) Gen.GC.statusError [.ref 5],                                     -- 3 env on the stack of finished fiber 4
     Obj.fiber .imm [] [⟨none, none, [.ref 5]⟩] none none none [] none,     -- 4 the dead fiber
     Obj.array false [.imm] ]                                                -- 5 captured array
   [⟨false, 0⟩]
@@ -140,7 +140,7 @@ example : Reachable deadFiberHeap 5 ∧ ¬ Reachable deadFiberHeap 4 ∧
   have r3 : Reachable deadFiberHeap 3 :=
     Reachable.step (o := Obj.function (some 2) [3]) (e := ⟨false, 3⟩) r1 (by decide) (by decide) (by decide)
   have r5 : Reachable deadFiberHeap 5 :=
-    Reachable.step (o := Obj.funcenv (some 4) true [.ref 5]) (e := ⟨true, 5⟩) r3 (by decide) (by decide) (by decide)
+    Reachable.step (o := Obj.funcenv (some 4) Gen.GC.statusError [.ref 5]) (e := ⟨true, 5⟩) r3 (by decide) (by decide) (by decide)
   have n4 : ¬ Reachable deadFiberHeap 4 := fun r => by
     have := reachable_subset deadFiberHeap [0, 1, 2, 3, 5] (by decide) (by decide) 4 r
     simp at this
@@ -183,6 +183,28 @@ example : ¬ Reachable weakHeap 4 ∧ (collect Gen.GC.recursionGuard weakHeap).g
 example : run 1 [.alloc 3 [], .alloc 3 [.root 0], .store (.root 0) 0 (.root 1), .unroot 1, .emit (.field (.root 0) 0),
     .same (.root 0) (.field (.root 0) 0)] (fun _ => false) 0 (Heap.ofList [] []) = [Obs.obj 3 0, Obs.same false] := by
   decide
+
+/-! ### the collector's one semantic action during marking: detaching closure environments -/
+
+/-- a fiber in this status can still run its frames: it can be resumed, or it is running right now -/
+def fiberCanStillRun (s : Nat) : Bool := !(Gen.GC.cannotResumeStatuses.contains s) || s == Gen.GC.statusAlive
+
+/-- **A collection does not change which environments are on-stack unless the owning fiber is finished.**  The status
+test of `janet_env_maybe_detach` and the one of `janet_check_can_resume` are both evaluated by the translator over the
+whole `JanetFiberStatus` enum; for every status in which the fiber's frames can still run (new, pending, debug,
+user5–user9, alive) the mark phase leaves the environment on the stack, so the frame and its closures keep sharing the
+same slots whatever the collection schedule. -/
+theorem collect_preserves_env_mode (s : Nat) (hs : s < Gen.GC.statusNames.length) (hrun : fiberCanStillRun s = true)
+    (f : Id) (values : List Val) :
+    envModeAfterMark (some f) s = .onStack f ∧ (Obj.funcenv (some f) s values).strong = [⟨true, f⟩] := by
+  have key : ∀ s, s < Gen.GC.statusNames.length → fiberCanStillRun s = true → detachOnMark s = false := by decide
+  have hd := key s hs hrun
+  simp [envModeAfterMark, Obj.funcenv, hd]
+
+/-- and the finished statuses are exactly the ones detached (so that a dead fiber does not keep its whole stack alive) -/
+theorem detach_iff_finished (s : Nat) (hs : s < Gen.GC.statusNames.length) :
+    detachOnMark s = !(fiberCanStillRun s) := by
+  revert s; decide
 
 /-! ### tie to the source: the generated mark-site table is the field list the model's constructors mirror -/
 
